@@ -25,13 +25,28 @@ struct X {
     }
     return 0;
   }
+  // let time pass until the given instant: timers that are due before it fire first
+  void advance_to(int64_t target) {
+    for (int g = 0; g < 64; g++) {
+      vk::timer_rec* best = nullptr; for (auto* t : vk::world().timers) if (t->armed && vk::timer_can_fire(t) && t->deadline_ms <= target) { best = t; break; }
+      if (!best) break; vk::timer_fire(best); vk::drain();
+    }
+    if (vk_now_ms < target) vk_now_ms = target;
+  }
+  // the application sends a QoS 0 message now; its write completes at once
+  void traffic() {
+    int a = w.publish<qos_e::at_most_once>("t", "p"); vk::drain();
+    auto* s = vk::pending_write(); vk_assert(s != nullptr, "harness: publish is written"); int b = w.npk; w.finish_write(s, s->wdata.size(), {}); vk::drain();
+    vk_assert(w.npk == b + 1 && w.pk[b].type == ref::PUBLISH && w.ops[a].done == 1 && w.ops[a].ec == 0, "harness: QoS 0 publish goes out");
+  }
 };
 
 extern "C" void h_keepalive(void) {
   X* x = new X(); W& w = x->w;
   x->ka = vk_sym_u16(); x->has_ska = vk_choose(2); x->ska = x->has_ska ? vk_sym_u16() : 0;
   x->K = x->has_ska ? x->ska : x->ka;
-  int scenario = vk_choose(4);
+  int scenario = vk_choose(5);
+  bool traffic = scenario == 4; if (traffic) scenario = 1;     // scenario 1 with application traffic inside every keep-alive interval
   if (scenario == 3) vk_assume(x->K == 0); else vk_assume(x->K >= 1 && x->K <= VK_KMAX);
   vk_assume(x->ka <= 1000);
   w.c.keep_alive(x->ka);
@@ -47,6 +62,8 @@ extern "C" void h_keepalive(void) {
   }
   vk_assert(x->ping_t()->armed && x->ping_t()->dur_ms == Kms, "ping timer is not armed with exactly the negotiated keep-alive");
   vk_assert(x->read_t()->armed && x->read_t()->dur_ms == Kms + Kms / 2, "read timeout is not exactly 1.5 x the negotiated keep-alive");
+  // outgoing traffic inside the interval does not postpone the PINGREQ (the property quantifies over traffic patterns)
+  if (traffic) { x->advance_to(t_connack + Kms / 2); x->traffic(); vk_reach("traffic-before-first-ping"); }
   // ---- first PINGREQ no later than K after CONNACK
   int r = x->advance(); vk_assert(r == 1, "no PINGREQ although the keep-alive interval passed");
   vk_assert(vk_now_ms - t_connack <= Kms, "first PINGREQ later than K seconds after CONNACK");
@@ -63,6 +80,7 @@ extern "C" void h_keepalive(void) {
   } else if (scenario == 1) {
     // the broker answers: the read timeout restarts, the next PINGREQ follows K after the previous one, no give-up
     ref::wr o = w.outw(); o.u8(0xD0); o.u8(0x00); w.commit(o); w.feed_all(); vk::drain(); int64_t t_resp = vk_now_ms;
+    if (traffic) { x->advance_to(t_ping + Kms - 1); x->traffic(); vk_reach("traffic-before-second-ping"); }
     int r2 = x->advance(); vk_assert(r2 == 1, "no second PINGREQ");
     vk_assert(vk_now_ms - t_ping <= Kms, "second PINGREQ later than K seconds after the first");
     vk_assert(vk_now_ms - t_resp < Kms + Kms / 2, "harness"); vk_reach("second-ping");
